@@ -198,6 +198,64 @@ def rule_executemany(ctx):
     ctx.floor("C08.e paths", n, 1)
 
 
+def rule_executemany_client_side(ctx):
+    """C08.e2: under a client-side paramstyle executemany binds every parameter set the way execute does: each statement text
+    that reaches the parser is `inlined(command) % converted(set_i)` — the values of one set, through the connector's chain,
+    substituted after (never before) session variables are inlined, and not rewritten afterwards."""
+    prog = ctx.prog
+    A1, B1 = Sym("A1"), Sym("B1")
+    sets = [Tup([A1]), Tup([B1])]
+    hooks = []
+
+    def fac():
+        h = FullHooks(None, "INSERT")
+        hooks.append(h)
+        return h
+
+    def run(I):
+        duck, conn, cur = make_session()
+        from ..execmodel import R
+        conn.attrs[R().paramstyle] = Const("pyformat")
+        conn.attrs["variables"].attrs[R().variables] = Dct(dict(VARS))
+        return I.call(I.getattr(cur, "executemany"), [Sym("COMMAND", typ="str", truthy=True), Tup(sets)], {}, None)
+
+    n = 0
+    seen = set()
+    for p, h in zip(explore(prog, fac, run, max_paths=128), hooks):
+        if p.outcome != "return" or h.parsed == 0:
+            continue
+        n += 1
+        texts = [e[1] for e in p.effects if e[0] == "parse-user"]
+        probs = []
+        prov = [(t, list(_prov_nodes(t))) for t in texts]
+        for i, leaf in enumerate((A1, B1)):
+            # the set's value reaches a parsed statement, and only as quote(escape(to_snowflake(value)))
+            uses = [x for _, nodes in prov for x in nodes if isinstance(x, Sym) and x.origin and x.origin[0] in ("call", "method")
+                    and _chain(x)[1] is leaf]
+            if not uses:
+                probs.append(f"the value of parameter set #{i + 1} reaches no statement")
+            elif not any(_chain(x)[0][:3] == ["quote", "escape", "to_snowflake"] for x in uses):
+                probs.append(f"the value of parameter set #{i + 1} is not bound as quote(escape(to_snowflake(value)))")
+        for i, (t, nodes) in enumerate(prov):
+            # session variables are inlined into the command text only: no substitution runs over text that holds bound values
+            for x in nodes:
+                if _is_substitution(x) and any(y is leaf for y in _prov_nodes(x) for leaf in (A1, B1)):
+                    probs.append(f"statement #{i + 1}: bound values are already in the text when session variables are inlined "
+                                 f"(`$name` inside a bound value is replaced or refused)")
+                    break
+            if not any(_is_substitution(x) for x in nodes):
+                probs.append(f"statement #{i + 1}: session variables are not inlined into the command")
+        ok = not probs
+        ctx.ob("C08.e2", "executemany (pyformat): every parameter set is bound as execute binds it", ok, "fakesnow/cursor.py", "; ".join(probs)[:200])
+        for pr in probs:
+            if pr in seen:
+                continue
+            seen.add(pr)
+            ctx.violation("C08.e2", "cursor", "FakeSnowflakeCursor.executemany", pr[:90], "fakesnow/cursor.py",
+                          f"executemany under paramstyle pyformat: {pr}")
+    ctx.floor("C08.e2 paths", n, 1)
+
+
 def rule_reembedded_text(ctx):
     """C08.f = C09.e: a value that fakesnow itself re-embeds into a statement of its own (the table comment — which may have
     been a bound parameter) sits in a single-quoted literal with its quotes doubled, the one embedding that is safe for every
@@ -245,4 +303,5 @@ RULES = [
     ("C08.a", rule_client_side, ("quick", "thorough")),
     ("C08.d", rule_server_side, ("quick", "thorough")),
     ("C08.e", rule_executemany, ("quick", "thorough")),
+    ("C08.e2", rule_executemany_client_side, ("quick", "thorough")),
 ]
